@@ -112,7 +112,15 @@ def user_classes():
                 v = xtuml.UUIDGenerator.readfunc(self)
                 self.log.append(v)
                 return v
-        _USER.update(mod=xtuml, Tens=Tens, RecUUID=RecUUID)
+        class ZeroBased(xtuml.IdGenerator):
+            '''user-supplied: 0, 1, 2, ... (the first value is falsy; used for peek/next only, never for creation)'''
+            _n = 0
+
+            def readfunc(self):
+                v = self._n
+                self._n += 1
+                return v
+        _USER.update(mod=xtuml, Tens=Tens, RecUUID=RecUUID, ZeroBased=ZeroBased)
     return _USER
 
 
@@ -127,6 +135,8 @@ def make_metamodel(kind):
         m = xtuml.MetaModel(xtuml.UUIDGenerator())
     elif kind == 'user':
         m = xtuml.MetaModel(user_classes()['Tens']())
+    elif kind == 'zerobased':
+        m = xtuml.MetaModel(user_classes()['ZeroBased']())
     elif kind == 'recuuid':
         m = xtuml.MetaModel(user_classes()['RecUUID']())
     else:
@@ -146,13 +156,15 @@ class GenRef(object):
 
     @property
     def exact(self):
-        return self.kind in ('int', 'user', 'recuuid')
+        return self.kind in ('int', 'user', 'recuuid', 'zerobased')
 
     def value_at(self, i):
         if self.kind == 'int':
             return i + 1
         if self.kind == 'user':
             return 10 * (i + 1)
+        if self.kind == 'zerobased':
+            return i
         if self.kind == 'recuuid':
             log = self.gen.log
             return log[i] if i < len(log) else MISSING
@@ -162,7 +174,7 @@ class GenRef(object):
         '''Judge the value a peek returned; -> list of (kind, message, expected)'''
         out = []
         exp = self.value_at(self.pos)
-        if is_null_id(v):
+        if is_null_id(v) and self.kind != 'zerobased':
             out.append(('peek:null', 'peek returned the null id %r' % (v,), 'a non-null id'))
         elif self.pending is not None and v != self.pending:
             out.append(('peek:advanced', 'two peeks with nothing handed out in between returned %r and then %r' %
@@ -177,7 +189,7 @@ class GenRef(object):
     def next(self, v):
         out = []
         exp = self.value_at(self.pos)
-        if is_null_id(v):
+        if is_null_id(v) and self.kind != 'zerobased':
             out.append(('next:null', 'next returned the null id %r' % (v,), 'a non-null id'))
         elif self.pending is not None and v != self.pending:
             out.append(('next:differs-from-peek', 'peek showed %r but the following next returned %r' % (self.pending, v),
@@ -637,7 +649,7 @@ def unit_test_history(model, hist, op):
 # ---------------------------------------------------------------------------
 
 C_OPS = ['peek0', 'next0', 'peek1', 'next1']
-C_PAIRS = [('int', 'int'), ('int', 'user'), ('recuuid', 'uuid')]
+C_PAIRS = [('int', 'int'), ('int', 'user'), ('recuuid', 'uuid'), ('zerobased', 'int')]
 
 
 def run_two_generators(sub, task):
@@ -750,7 +762,7 @@ def run(ctx):
     ctx.require(ctx.n('unknown_rejected') >= 500, 'too few rejected unknown types (%d)' % ctx.n('unknown_rejected'))
     ctx.require(total >= 5 * 100, 'too few generator-history states (%d)' % total)
     ctx.require(ctx.n('consumption_after_peek') >= 1000, 'too few consuming operations after a peek')
-    ctx.require(ctx.n('two_generator_sequences') >= 3 * 4 ** depth, 'two-generator family incomplete')
+    ctx.require(ctx.n('two_generator_sequences') >= len(C_PAIRS) * 4 ** depth, 'two-generator family incomplete')
     ctx.require(ctx.nd('outcomes') >= 100, 'too few distinct outcomes (%d)' % ctx.nd('outcomes'))
 
 
